@@ -35,7 +35,7 @@ def _run_tlc(module, cfg, env=None, workers=1, extra=(), timeout=3600, heap="2g"
         if f.endswith(".tla") or f.endswith(".cfg"):
             shutil.copy(os.path.join(SPEC, f), d)
     cmd = [
-        "java", f"-Xmx{heap}", "-XX:+UseParallelGC", "-cp", JAR, "tlc2.TLC",
+        "java", f"-Xmx{heap}", "-XX:+UseSerialGC" if workers == 1 else "-XX:+UseParallelGC", "-XX:TieredStopAtLevel=4", "-cp", JAR, "tlc2.TLC",
         "-config", cfg, "-workers", str(workers), "-metadir", os.path.join(d, "meta"),
         "-noGenerateSpecTE",
     ]
@@ -117,6 +117,34 @@ def model_check(module, cfg, workers=None, expect_violation=False, extra=(), tim
         raise MachineryError(f"TLC did not finish {module}/{cfg}\n" + out[-3000:])
     return {"ok": not violated, "violated": violated, "states": gen, "distinct": dist,
             "wall": res["wall"], "out": out}
+
+
+def model_check_sharded(module, cfg, nshards=None, timeout=3600, heap="2g"):
+    """Leg A instances whose Init ranges over a big universe: TLC enumerates initial states on one
+    thread, so the universe is split over JVMs with the constants Shard / NShards."""
+    n = nshards or NCPU
+    base = open(os.path.join(SPEC, cfg)).read()
+    names = []
+    for k in range(n):
+        name = cfg.replace(".cfg", f"__shard{k}.cfg")
+        with open(os.path.join(SPEC, name), "w") as fh:
+            fh.write(re.sub(r"NShards = \d+", f"NShards = {n}", re.sub(r"Shard = \d+", f"Shard = {k}", base, count=1)))
+        names.append(name)
+    t0 = time.time()
+    try:
+        with ThreadPoolExecutor(max_workers=NCPU) as ex:
+            futs = [ex.submit(model_check, module, nm, 1, False, (), timeout, heap) for nm in names]
+            rs = [f.result() for f in futs]
+    finally:
+        for nm in names:
+            try:
+                os.remove(os.path.join(SPEC, nm))
+            except OSError:
+                pass
+    bad = [r for r in rs if not r["ok"]]
+    return {"ok": not bad, "violated": bool(bad), "states": sum(r["states"] for r in rs),
+            "distinct": sum(r["distinct"] for r in rs), "wall": time.time() - t0,
+            "out": (bad[0]["out"] if bad else rs[0]["out"])}
 
 
 def _accept_shard(module, cfg, events, idx, consts_env, timeout):
